@@ -19,7 +19,7 @@ from .c20_others import regions_equal
 
 I = z3.Int
 BOUNDS = {"quick": dict(K=3), "thorough": dict(K=4)}
-CONTAINERS = ["region", "region.split", "source", "reader", "raw-eager", "raw-lazy", "wav-eager", "wav-lazy", "stdin"]
+CONTAINERS = ["region", "region with start", "region.split", "source", "reader", "raw-eager", "raw-lazy", "wav-eager", "wav-lazy", "IN.WAV", "IN.Raw lazy", "stdin"]
 ALIASES = ["short-only", "sr", "sw", "ch", "aw", "val", "mr", "fmt", "eth", "uc"]
 
 
@@ -51,6 +51,8 @@ def harness(L, sw, ch, sr, K, mode, group):
         fs.files["in.raw"] = iostub.RawEntry(data)
         fs.files["in.wav"] = iostub.WavEntry(data, sr, sw, ch)
         fs.files["in.dat"] = iostub.WavEntry(data, sr, sw, ch)       # wav content behind a non-wav extension
+        fs.files["IN.WAV"] = iostub.WavEntry(data, sr, sw, ch)       # extensions as cameras and recorders write them
+        fs.files["IN.Raw"] = iostub.RawEntry(data)
         iostub.install(L, fs, stdin_data=data)
         seen = []
 
@@ -90,6 +92,9 @@ def harness(L, sw, ch, sr, K, mode, group):
                     runs[stage] = list(core.split("in.raw", sr=sr, sw=sw, ch=ch, analysis_window=aw, validator=mkval(), large_file=lazy, **skw))
                     stage = "wav-" + ("lazy" if lazy else "eager")
                     runs[stage] = list(core.split("in.wav", analysis_window=aw, validator=mkval(), large_file=lazy, **skw))
+                stage = "upper-case extension"
+                runs["IN.WAV"] = list(core.split("IN.WAV", analysis_window=aw, validator=mkval(), **skw))
+                runs["IN.Raw lazy"] = list(core.split("IN.Raw", sr=sr, sw=sw, ch=ch, analysis_window=aw, validator=mkval(), large_file=True, **skw))
                 stage = "stdin"
                 runs["stdin"] = list(core.split("-", sr=sr, sw=sw, ch=ch, analysis_window=aw, validator=mkval(), **skw))
                 for k_, r in runs.items():
@@ -147,6 +152,24 @@ def harness(L, sw, ch, sr, K, mode, group):
                     conds[("validator parameters", "defaults")] = seen[2][0] == 50 and seen[2][3] is None
                 for k_, r in (("eth-long", r1), ("eth-short", r2), ("eth-default", r3)):
                     conds[("same regions whatever the threshold spelling", k_)] = regions_equal(base, r)
+                # a value of zero means the same in both spellings (a short name tested for truthiness would fall back to a default)
+                stage = "zero-valued aliases"
+
+                def outcome(**kw_):
+                    try:
+                        return ("ok", list(core.split(data, sr=sr, sw=sw, ch=ch, validator=mkval(), **dict(skw, **kw_))))
+                    except Exception as ex:
+                        return ("raised " + type(ex).__name__, None)
+                for long_, short_ in (("analysis_window", "aw"), ("max_read", "mr")):
+                    other = {} if long_ == "analysis_window" else {"analysis_window": aw}
+                    for zero in (0, 0.0):
+                        o1, o2 = outcome(**dict(other, **{long_: zero})), outcome(**dict(other, **{short_: zero}))
+                        conds[("zero means the same in both spellings", "%s=%r" % (short_, zero))] = (
+                            o1[0] == o2[0] and (o1[1] is None or tobool(regions_equal(o1[1], o2[1]))))
+                del seen[:]
+                list(core.split(data, sr=sr, sw=sw, ch=ch, analysis_window=aw, energy_threshold=0, use_channel=0, **skw))
+                list(core.split(data, sr=sr, sw=sw, ch=ch, analysis_window=aw, eth=0, uc=0, **skw))
+                conds[("zero means the same in both spellings", "eth=0, uc=0")] = len(seen) == 2 and seen[0] == seen[1] and seen[0][0] == 0 and seen[0][3] == 0
             else:
                 # max_read = t  ==  splitting the first round(t*rate) samples; t in quarter samples; both spellings
                 stage = "max_read"
@@ -244,6 +267,9 @@ def replay_fn(c):
             runs["AudioRegion that has a start time"] = lambda: ak.split(ak.AudioRegion(data, sr, sw, ch, start=2.5), analysis_window=aw, validator=val(), **skw)
             runs["AudioSource"] = lambda: ak.split(rio.BufferAudioSource(data, sr, sw, ch), analysis_window=aw, validator=val(), **skw)
             runs["AudioReader"] = lambda: ak.split(ak.AudioReader(data, block_dur=aw, sr=sr, sw=sw, ch=ch), validator=val(), **skw)
+            for nm_, kw_ in (("IN.WAV", {}), ("IN.Raw", dict(sr=sr, sw=sw, ch=ch, large_file=True))):
+                shutil.copy(wav if nm_ == "IN.WAV" else raw, os.path.join(tmp, nm_))
+                runs["file named %s" % nm_] = lambda nm_=nm_, kw_=kw_: ak.split(os.path.join(tmp, nm_), analysis_window=aw, validator=val(), **dict(skw, **kw_))
             for lazy in (False, True):
                 runs["raw file%s" % (" lazy" if lazy else "")] = lambda lazy=lazy: ak.split(raw, sr=sr, sw=sw, ch=ch, analysis_window=aw, validator=val(), large_file=lazy, **skw)
                 runs["wav file%s" % (" lazy" if lazy else "")] = lambda lazy=lazy: ak.split(wav, analysis_window=aw, validator=val(), large_file=lazy, **skw)
@@ -267,6 +293,30 @@ def replay_fn(c):
             runs["energy_threshold/eth, use_channel/uc"] = lambda: ak.split(data, sr=sr, sw=sw, ch=ch, analysis_window=aw, energy_threshold=eth, eth=eth + 1, use_channel=0, uc="mix", **skw)
             runs["eth, uc only"] = lambda: ak.split(data, sr=sr, sw=sw, ch=ch, analysis_window=aw, eth=eth, uc="mix", **skw)
             runs["max_read=None and mr"] = lambda: ak.split(data, sr=sr, sw=sw, ch=ch, analysis_window=aw, validator=val(), max_read=None, mr=B / (2 * sr), **skw)
+            for long_, short_ in (("analysis_window", "aw"), ("max_read", "mr")):
+                for zero in (0, 0.0):
+                    def zero_run(long_=long_, short_=short_, zero=zero):
+                        outs = []
+                        for nm_ in (long_, short_):
+                            kw_ = dict(skw, **{nm_: zero})
+                            if long_ != "analysis_window":
+                                kw_["analysis_window"] = aw
+                            try:
+                                outs.append(("ok", sig(ak.split(data, sr=sr, sw=sw, ch=ch, validator=val(), **kw_))))
+                            except Exception as ex:
+                                outs.append(("raised " + type(ex).__name__, None))
+                        return base if outs[0] == outs[1] else [("%s=%r -> %s, %s=%r -> %s" % (long_, zero, outs[0][0], short_, zero, outs[1][0]), 0, b"")]
+                    runs["%s=%r and %s=%r" % (long_, zero, short_, zero)] = zero_run
+
+            def zero_eth():
+                del seen[:]
+                list(ak.split(data, sr=sr, sw=sw, ch=ch, analysis_window=aw, energy_threshold=0, use_channel=0, **skw))
+                list(ak.split(data, sr=sr, sw=sw, ch=ch, analysis_window=aw, eth=0, uc=0, **skw))
+                ok = len(seen) == 2 and seen[0] == seen[1] and seen[0][0] == 0 and seen[0][3] == 0
+                r = base if ok else [("validators built with %s" % (seen,), 0, b"")]
+                del seen[:]
+                return r
+            runs["energy_threshold=0, use_channel=0 and eth=0, uc=0"] = zero_eth
             runs["validator=None, use_channel=None and val, uc"] = lambda: ak.split(data, sr=sr, sw=sw, ch=ch, analysis_window=aw, validator=None, val=lambda f: False, use_channel=None, uc=0, **skw)
         else:
             mrc = byt.max_read_concrete(c["Mq"], sr)
@@ -332,13 +382,13 @@ def run(rep):
     K = b["K"]
     rep.bounds = {"windows": "inputs of <= %d analysis windows; sample count, window size, window counts unbounded integers; max_read in quarter samples" % K,
                   "containers": CONTAINERS, "aliases": ALIASES,
-                  "formats": "%s, 2 of 4 modes per format" % (byt.fmts(tier)[:3],)}
+                  "formats": "%s, 2 of 4 modes per format" % ([(1, 1), (2, 2)] if tier == "quick" else [(1, 1), (2, 2), (4, 3)],)}
     rep.explanation = ("One path = one symbolic audio + decisions; the real split() is run through every container kind / alias spelling and "
                        "z3 proves each region list equal to the run on raw bytes (bytes by segment normalisation, times as rationals).")
     rep.assumptions = ["I/O stubs (files, wave, stdin) holding the same byte sequence", "stub validator / recording AudioEnergyValidator stand-in (C07 owns the energy rule)",
                        "stub for _duration_to_nb_windows (C06)"]
     rep.outside = ["pydub-decoded formats, microphone", "inputs longer than %d windows" % K]
-    fm = byt.fmts(tier)[:2] if tier == "quick" else byt.fmts(tier)[:3]
+    fm = [(1, 1), (2, 2)] if tier == "quick" else [(1, 1), (2, 2), (4, 3)]
     for i, (sw, ch) in enumerate(fm):
         for mode in ((0,) if i == 0 else (6,)) if tier == "quick" else ((0, 6) if i == 0 else (2, 4)[i - 1:i]):
             for group in ("containers", "aliases", "max_read"):
